@@ -2,10 +2,15 @@
 C11 — compositing agrees with the published compositing model.
 The code model (`Model/Composite.lean`, one `_apply_source` step and the recursion over
 layers, groups, masks and clip runs) against the Porter–Duff / PDF 1.7 §11.3–11.4 formulas,
-in premultiplied form, for every rational input in range.
+in premultiplied form, for every rational input in range; and, for whole layer trees, against the
+published model written independently as a denotation of the tree (`Model/CompositeSpec.lean`):
+`compositor_refines_spec_partial` / `_coded_knockout` (+ `_list`, `_clip_run`, `_doc`),
+`compositor_refines_spec_fails_on_knockout`, `knockout_alpha_excess`, `group_result_unclipped`.
 -/
 import PsdVerif.Lemmas.CompositeTree
 import PsdVerif.Lemmas.CompositeEval
+import PsdVerif.Lemmas.CompositeSpecKnockout
+import PsdVerif.Lemmas.CompositeSpecEval
 
 namespace PsdVerif.C11
 open PsdVerif PsdVerif.Composite
@@ -71,45 +76,7 @@ theorem apply_source_knockout_eq_pdf {bl : Color → Color → Color} {st : PSta
     r.c ch * r.a = (1 - fs) * st.a * st.c ch + (fs - αs) * st.a0 * st.c0 ch
       + αs * ((1 - st.a0) * Cs ch + st.a0 * bl st.c0 Cs ch) := by
   intro r
-  obtain ⟨a0, a1⟩ := h.a
-  obtain ⟨z0, z1⟩ := h.a0
-  obtain ⟨g0, g1⟩ := h.ag
-  obtain ⟨c0, c1⟩ := h.c ch
-  obtain ⟨k0, k1⟩ := h.c0 ch
-  obtain ⟨s0, s1⟩ := hs.c ch
-  obtain ⟨b0, b1⟩ := hb st.c0 Cs h.c0 hs.c ch
-  have e1 : 0 ≤ 1 - fs := sub_nonneg.2 hs.s1
-  have e2 : 0 ≤ fs - αs := sub_nonneg.2 hs.as
-  have m0 : 0 ≤ (1 - st.a0) * Cs ch + st.a0 * bl st.c0 Cs ch := by
-    have := mul_nonneg (sub_nonneg.2 z1) s0; have := mul_nonneg z0 b0; linarith
-  have m1 : (1 - st.a0) * Cs ch + st.a0 * bl st.c0 Cs ch ≤ 1 := by
-    have := mul_le_mul_of_nonneg_left s1 (sub_nonneg.2 z1)
-    have := mul_le_mul_of_nonneg_left b1 z0; linarith
-  set num := (1 - fs) * st.a * st.c ch + (fs - αs) * st.a0 * st.c0 ch
-      + αs * ((1 - st.a0) * Cs ch + st.a0 * bl st.c0 Cs ch) with hnum
-  have hra : r.a = union st.a0 ((1 - fs) * st.ag + (fs - αs) * st.a0 + αs) := by
-    simp [r, applySource]
-  have hn0 : 0 ≤ num := by
-    have := mul_nonneg (mul_nonneg e1 a0) c0
-    have := mul_nonneg (mul_nonneg e2 z0) k0
-    have := mul_nonneg hs.a0 m0
-    linarith
-  have hn1 : num ≤ r.a := by
-    rw [hra]
-    have t1 : (1 - fs) * st.a * st.c ch ≤ (1 - fs) * st.a := mul_le_of_le_one_right (mul_nonneg e1 a0) c1
-    have t2 : (fs - αs) * st.a0 * st.c0 ch ≤ (fs - αs) * st.a0 := mul_le_of_le_one_right (mul_nonneg e2 z0) k1
-    have t3 := mul_le_mul_of_nonneg_left m1 hs.a0
-    have key : union st.a0 ((1 - fs) * st.ag + (fs - αs) * st.a0 + αs)
-        - ((1 - fs) * st.a + (fs - αs) * st.a0 + αs) = st.a0 * (fs - αs) * (1 - st.a0) := by
-      rw [h.a_eq]; unfold union; ring
-    have : 0 ≤ st.a0 * (fs - αs) * (1 - st.a0) := mul_nonneg (mul_nonneg z0 e2) (sub_nonneg.2 z1)
-    linarith
-  have hc : r.c ch = clip (divide num r.a) := by
-    simp only [r, applySource, if_true, hnum]
-    congr 2
-    ring
-  rw [hc]
-  exact clip_divide_mul hn0 hn1
+  exact applySource_knockout_mul h hs hb ch
 
 /-- **State in range**: through the whole recursion (groups, masks, clip runs, knockout) colours,
 shapes and alphas stay in `[0,1]`, `alpha = Union(alpha₀, alpha_g)` and `alpha_g ≤ shape_g`. -/
@@ -127,5 +94,180 @@ theorem evaluator_is_model (k : Nat) (B : Mode → Color → Color → Color) (V
     (alpha : Rat) (layers : List Node) :
     compositeDocF k B V x y color alpha layers = compositeDoc B V x y color alpha layers :=
   compositeDocF_eq k B V x y color alpha layers
+
+/-! ### the compositor refines the published model (`Model/CompositeSpec.lean`) on whole trees -/
+
+/-- **The backdrop removal of `Compositor.color` never clips.** For every state reached from the start of a
+group through any list of layers (leaves, masks, nested isolated / pass-through groups, clip runs, knockout
+elements) `0 ≤ α·C − (1−αg)·α₀·C₀ ≤ αg` in every channel, hence the value `finish` returns satisfies
+`colour × αg = α·C − (1−αg)·α₀·C₀`: PDF 1.7 §11.4.8 `C = Cn + (Cn − C0)·(α0/αgn − α0)` times `αgn`, with
+`_clip` and the `0/0 → 1` fallback inactive. -/
+theorem group_result_unclipped {B : Mode → Color → Color → Color} (hB : BOk B) (V : Rect) (x y : Int)
+    {color : Color} {alpha : Rat} (hc : ColorOk color) (ha : Unit01 alpha) (iso : Bool) (layers : List Node)
+    (hl : listOk layers) :
+    let st := applyList B V x y (PState.init color alpha iso) layers
+    ∀ ch, (0 ≤ st.c ch * st.a - (1 - st.ag) * st.a0 * st.c0 ch ∧ st.c ch * st.a - (1 - st.ag) * st.a0 * st.c0 ch ≤ st.ag) ∧
+      finishColor st ch * st.ag = st.c ch * st.a - (1 - st.ag) * st.a0 * st.c0 ch := by
+  intro st ch
+  have i0 := inv_init hc ha iso
+  have hinv := applyList_inv B V x y _ i0 layers hl
+  have hx := applyList_xinv hB V x y _ i0 (xinv_init color alpha iso) layers hl
+  exact ⟨hx ch, finishColor_mul hinv hx ch⟩
+
+example : BOk (fun _ => blNormal) := fun _ _ _ _ hcs => hcs
+example : listOk [] := trivial
+
+/-- **One element**: an `_apply_source` step of the code is one step of the published recurrences
+(`specSource`: §11.4.5 in premultiplied form) — for a knockout element with the group-alpha rule as coded. -/
+theorem apply_source_refines_spec {bl : Color → Color → Color} {st : PState} {σ : SState} {Cs Ps : Color}
+    {fs αs : Rat} (h : Inv st) (hr : Rel st σ) (hs : SrcOk Cs fs αs) (hb : BlendOk bl)
+    (hP : ∀ ch, Ps ch = Cs ch * αs) (k : KoRule) (knockout : Bool) (hk : knockout = true → k = .asCoded) :
+    Rel (applySource bl st Cs fs αs knockout) (specSource k bl σ Ps fs αs knockout) := by
+  cases knockout
+  · rw [specSource_rule_irrelevant k .asCoded]; exact applySource_rel h hr hs hb hP false
+  · rw [hk rfl]; exact applySource_rel h hr hs hb hP true
+
+/-- the hypotheses are satisfiable: the start of any group, isolated or not -/
+example (color : Color) (alpha : Rat) (hc : ColorOk color) (ha : Unit01 alpha) (iso : Bool) :
+    Inv (PState.init color alpha iso) ∧ Rel (PState.init color alpha iso) (SState.init (fun ch => color ch * alpha) alpha iso) :=
+  ⟨inv_init hc ha iso, rel_init iso (fun _ => rfl)⟩
+
+/-! DESIGN's `compositor_refines_spec` at full strength — "for every well-formed tree the code model and the
+published model reach related states" — is FALSE at this commit: `compositor_refines_spec_fails_on_knockout`.
+The code departs from the published model in exactly one rule, the group alpha after a knockout element
+(`KoRule`, header of `Model/CompositeSpec.lean`). Proved instead:
+* `compositor_refines_spec_partial` (+ `_list`, `_clip_run`, `_doc`): against the published model, for every
+  tree in which no layer has the knockout flag;
+* `compositor_refines_spec_coded_knockout` (+ `_list`, `_clip_run`, `_doc`): for EVERY tree, against the
+  published model with that one rule replaced by the coded one — so the rule is the only difference;
+* `knockout_alpha_excess`: the exact size of the difference per step. -/
+
+/-- **The full statement fails on a knockout layer**: document backdrop white with alpha 1/2 (what a pass-through
+group over a half-transparent white layer hands to its children), one white, fully covering layer with the
+knockout flag and opacity 1/2, normal blending. Published model: alpha 1/2 and premultiplied colour 1/2, i.e.
+WHITE. Code model: alpha 3/4 and colour 5/6 — white over white is grey. (All hypotheses of the refinement
+theorems hold for this input.) -/
+theorem compositor_refines_spec_fails_on_knockout :
+    BOk allNormal ∧ ColorOk white ∧ Unit01 (1/2 : Rat) ∧ listOk [koWhiteLayer] ∧
+    (compositeDoc allNormal unitRect 0 0 white (1/2) [koWhiteLayer]).2.2 = 3/4 ∧
+    (specDoc .published allNormal unitRect 0 0 (fun ch => 1/2 * white ch) (1/2) [koWhiteLayer]).2.2 = 1/2 ∧
+    (compositeDoc allNormal unitRect 0 0 white (1/2) [koWhiteLayer]).1 0 = 5/6 ∧
+    (specDoc .published allNormal unitRect 0 0 (fun ch => 1/2 * white ch) (1/2) [koWhiteLayer]).1 0 = 1/2 :=
+  ⟨allNormal_ok, white_ok, ⟨by norm_num, by norm_num⟩, koWhiteLayer_ok, by decide +kernel, by decide +kernel,
+    by decide +kernel, by decide +kernel⟩
+
+/-- **By how much.** After a knockout `_apply_source` step the code's alpha is the published alpha
+`Union(α₀, (1−fs)·αg + αs)` plus `(1−α₀)·(fs−αs)·α₀`; the published alpha is exactly the sum of the weights of the
+colour recurrence `(1−fs)·α + (fs−αs)·α₀ + αs` (which is why white stays white there). The excess vanishes iff
+`α₀ = 0`, `α₀ = 1` or `fs = αs`. -/
+theorem knockout_alpha_excess (bl : Color → Color → Color) {st : PState} (h : Inv st) (Cs : Color) (fs αs : Rat) :
+    (applySource bl st Cs fs αs true).a
+      = union st.a0 (KoRule.published.alpha fs αs st.ag st.a0) + (1 - st.a0) * (fs - αs) * st.a0 ∧
+    union st.a0 (KoRule.published.alpha fs αs st.ag st.a0) = (1 - fs) * st.a + (fs - αs) * st.a0 + αs :=
+  Composite.knockout_alpha_excess bl h Cs fs αs
+
+/-- **`compositor_refines_spec`, trees without knockout flags** — one layer with everything below it, against the
+PUBLISHED model. From related states (`Rel`: equal shape `fg`, group alpha `αg`, alpha `α`, backdrop alpha `α0`;
+spec's premultiplied colours `P = C·α`, `P0 = C0·α0`) the code model `applyNode` and the published model
+`specNode` reach related states. Covers pixel layers, raster masks with density and background, opacity and
+fill opacity, nested isolated and pass-through groups with backdrop removal, clip runs (clipping groups), the
+four early exits and the viewport/bbox bookkeeping. The code's `_divide` fallback and both `_clip`s are thereby
+shown inert: the code computes exactly the published polynomial recurrences. Missing for the full statement:
+knockout elements (see above). -/
+theorem compositor_refines_spec_partial {B : Mode → Color → Color → Color} (hB : BOk B) (V : Rect) (x y : Int)
+    (clipCompositing : Bool) (st : PState) (σ : SState) (hst : Inv st) (hr : Rel st σ) (n : Node) (hn : nodeOk n)
+    (hko : nodeNoKo n) (k : KoRule) :
+    Rel (applyNode B V x y clipCompositing st n) (specNode k B V x y clipCompositing σ n) := by
+  rw [specNode_rule_irrelevant k .asCoded B V x y clipCompositing σ n hko]
+  exact applyNode_rel hB V x y clipCompositing st σ hst hr n hn
+
+example : nodeNoKo (.group { visible := true, bbox := unitRect, opacity := 1, fill := 1, hasMask := false,
+                             maskBBox := Rect.zero, maskValue := 1, maskBackground := 0, maskDensity := 1, mode := 0,
+                             knockout := false, clipping := false, hasClipTarget := false } true [] []) :=
+  ⟨rfl, trivial, trivial⟩
+
+/-- … a stack of layers (the loop of `composite`) -/
+theorem compositor_refines_spec_partial_list {B : Mode → Color → Color → Color} (hB : BOk B) (V : Rect) (x y : Int)
+    (st : PState) (σ : SState) (hst : Inv st) (hr : Rel st σ) (ns : List Node) (hn : listOk ns)
+    (hko : listNoKo ns) (k : KoRule) :
+    Rel (applyList B V x y st ns) (specList k B V x y σ ns) := by
+  rw [specList_rule_irrelevant k .asCoded B V x y σ ns hko]
+  exact applyList_rel hB V x y st σ hst hr ns hn
+
+/-- … a clip run (the loop of `_apply_clip_layers`) -/
+theorem compositor_refines_spec_partial_clip_run {B : Mode → Color → Color → Color} (hB : BOk B) (V : Rect) (x y : Int)
+    (st : PState) (σ : SState) (hst : Inv st) (hr : Rel st σ) (ns : List Node) (hn : listOk ns)
+    (hko : listNoKo ns) (k : KoRule) :
+    Rel (applyClips B V x y st ns) (specClips k B V x y σ ns) := by
+  rw [specClips_rule_irrelevant k .asCoded B V x y σ ns hko]
+  exact applyClips_rel hB V x y st σ hst hr ns hn
+
+/-- **Whole documents without knockout flags**: `composite(psd, color, alpha)` at a pixel returns the published
+model's shape and alpha, and `colour × alpha = ` the published premultiplied group colour — so the colour is the
+published one wherever the result alpha is not zero (under zero alpha the published model defines no colour). -/
+theorem compositor_refines_spec_partial_doc {B : Mode → Color → Color → Color} (hB : BOk B) (V : Rect) (x y : Int)
+    {color : Color} {alpha : Rat} (hc : ColorOk color) (ha : Unit01 alpha) (layers : List Node) (hl : listOk layers)
+    (hko : listNoKo layers) (k : KoRule) :
+    let code := compositeDoc B V x y color alpha layers
+    let spec := specDoc k B V x y (fun ch => alpha * color ch) alpha layers
+    code.2.1 = spec.2.1 ∧ code.2.2 = spec.2.2 ∧ (∀ ch, code.1 ch * code.2.2 = spec.1 ch) ∧
+      (code.2.2 ≠ 0 → ∀ ch, code.1 ch = spec.1 ch / spec.2.2) := by
+  intro code spec
+  have hs : spec = specDoc .asCoded B V x y (fun ch => alpha * color ch) alpha layers :=
+    specDoc_rule_irrelevant k .asCoded B V x y _ alpha layers hko
+  obtain ⟨h1, h2, h3⟩ := compositeDoc_rel hB V x y hc ha layers hl
+  rw [← hs] at h1 h2 h3
+  refine ⟨h1, h2, h3, ?_⟩
+  intro hne ch
+  have h3' : code.1 ch * code.2.2 = spec.1 ch := h3 ch
+  have h2' : code.2.2 = spec.2.2 := h2
+  rw [← h3', ← h2']
+  field_simp
+
+example : ColorOk white ∧ Unit01 (0 : Rat) ∧ listNoKo [] := ⟨white_ok, unit01_zero, trivial⟩
+
+/-- **Every tree, knockout included, with the group-alpha rule as coded**: the code model refines the published
+model in which the single recurrence `αg_i = (1−fs)·αg_{i-1} + αs` of a knockout element is replaced by the
+coded `αg_i = (1−fs)·αg_{i-1} + (fs−αs)·α0 + αs`. Everything else about knockout (the element sees the group's
+initial backdrop, `(fs−αs)·α0·C0` shows through, knockout groups start from the initial backdrop) is as published. -/
+theorem compositor_refines_spec_coded_knockout {B : Mode → Color → Color → Color} (hB : BOk B) (V : Rect) (x y : Int)
+    (clipCompositing : Bool) (st : PState) (σ : SState) (hst : Inv st) (hr : Rel st σ) (n : Node) (hn : nodeOk n) :
+    Rel (applyNode B V x y clipCompositing st n) (specNode .asCoded B V x y clipCompositing σ n) :=
+  applyNode_rel hB V x y clipCompositing st σ hst hr n hn
+
+theorem compositor_refines_spec_coded_knockout_list {B : Mode → Color → Color → Color} (hB : BOk B) (V : Rect) (x y : Int)
+    (st : PState) (σ : SState) (hst : Inv st) (hr : Rel st σ) (ns : List Node) (hn : listOk ns) :
+    Rel (applyList B V x y st ns) (specList .asCoded B V x y σ ns) :=
+  applyList_rel hB V x y st σ hst hr ns hn
+
+theorem compositor_refines_spec_coded_knockout_clip_run {B : Mode → Color → Color → Color} (hB : BOk B) (V : Rect) (x y : Int)
+    (st : PState) (σ : SState) (hst : Inv st) (hr : Rel st σ) (ns : List Node) (hn : listOk ns) :
+    Rel (applyClips B V x y st ns) (specClips .asCoded B V x y σ ns) :=
+  applyClips_rel hB V x y st σ hst hr ns hn
+
+theorem compositor_refines_spec_coded_knockout_doc {B : Mode → Color → Color → Color} (hB : BOk B) (V : Rect) (x y : Int)
+    {color : Color} {alpha : Rat} (hc : ColorOk color) (ha : Unit01 alpha) (layers : List Node) (hl : listOk layers) :
+    let code := compositeDoc B V x y color alpha layers
+    let spec := specDoc .asCoded B V x y (fun ch => alpha * color ch) alpha layers
+    code.2.1 = spec.2.1 ∧ code.2.2 = spec.2.2 ∧ (∀ ch, code.1 ch * code.2.2 = spec.1 ch) ∧
+      (code.2.2 ≠ 0 → ∀ ch, code.1 ch = spec.1 ch / spec.2.2) := by
+  intro code spec
+  obtain ⟨h1, h2, h3⟩ := compositeDoc_rel hB V x y hc ha layers hl
+  refine ⟨h1, h2, h3, ?_⟩
+  intro hne ch
+  have h3' : code.1 ch * code.2.2 = spec.1 ch := h3 ch
+  have h2' : code.2.2 = spec.2.2 := h2
+  rw [← h3', ← h2']
+  field_simp
+
+example : listOk [koWhiteLayer] := koWhiteLayer_ok
+
+/-- **The spec's evaluator is the spec.** The driver commands `comp.spec` (rule as coded) and `comp.spec.pub`
+(published rule), which every run compares with `comp.pixel` on the correspondence cases, evaluate `specDocF`
+(colours tabulated after every step); it returns exactly what `specDoc` returns. -/
+theorem spec_evaluator_is_spec (r : KoRule) (k : Nat) (B : Mode → Color → Color → Color) (V : Rect) (x y : Int)
+    (P : Color) (alpha : Rat) (layers : List Node) :
+    specDocF r k B V x y P alpha layers = specDoc r B V x y P alpha layers :=
+  specDocF_eq r k B V x y P alpha layers
 
 end PsdVerif.C11
